@@ -172,7 +172,7 @@ Definition g_table : list (Z * bytes * bytes) := [
 ].
 
 Definition g_clauses (d : dbl) : bool :=
-  is_finite d && rfc_number (fmt_g15 d) && rfc_number (fmt_g17 d)
+  is_finite d && valid_dbl d && rfc_number (fmt_g15 d) && rfc_number (fmt_g17 d)
   && (zlen (fmt_g15 d) <=? c_NUMBER_BUFFER_SIZE - 1) && (zlen (fmt_g17 d) <=? c_NUMBER_BUFFER_SIZE - 1).
 
 (** TEST (not a proof about all doubles): the executable "%g" clauses of the contract on the table *)
@@ -286,6 +286,15 @@ Proof. repeat split; vm_compute; reflexivity. Qed.
     the real one by the correspondence check) *)
 Lemma strict_spec_satisfiable : LibcStrictSpec fmt_d (fun _ => [48]) (fun _ => [48]).
 Proof.
-  constructor; try (intros; reflexivity); try (intros; vm_compute; discriminate);
-    intros z Hz; apply (ref_fmt_d_strict z Hz).
+  constructor.
+  - intros z Hz. apply (ref_fmt_d_strict z Hz).
+  - intros d _ _. reflexivity.
+  - intros d _ _. reflexivity.
+  - intros z Hz. apply (ref_fmt_d_strict z Hz).
+  - intros d _ _. unfold zlen. cbn [length]. change (c_NUMBER_BUFFER_SIZE - 1) with 25. lia.
+  - intros d _ _. unfold zlen. cbn [length]. change (c_NUMBER_BUFFER_SIZE - 1) with 25. lia.
+  - intros z Hz. apply (ref_fmt_d_strict z Hz).
 Qed.
+
+Example ex_tree_fields_ok : fields_ok ex_tree = true.
+Proof. vm_compute. reflexivity. Qed.
